@@ -226,7 +226,17 @@ pub fn gen_browse_world(prop: &str, flavor: Flavor, seed: u64, index: u64, tier:
                             2 => vec![cur.srv.clone()],
                             _ => cur.addrs.clone(),
                         };
-                        s.op(t_ev, Op::PeerSend { p, v4: true, sport: 5353, msg: goodbye(&recs), to: Dest::Mcast });
+                        let mut gb = goodbye(&recs);
+                        if what >= 2 && rng.below(3) == 0 {
+                            // the same packet carries a changed TXT of the instance: the daemon looks at the instance again in
+                            // the very step (and millisecond) in which it stored the goodbye
+                            let new_txt = Rec::txt(&cur.inst, wire::txt_encode(&[("k".into(), Some(format!("g{}", t_ev).into_bytes()))]), cur.txt.ttl, true);
+                            gb.answers.push(new_txt.clone());
+                            all_recs.retain(|r| r != &cur.txt);
+                            all_recs.push(new_txt.clone());
+                            cur.txt = new_txt;
+                        }
+                        s.op(t_ev, Op::PeerSend { p, v4: true, sport: 5353, msg: gb, to: Dest::Mcast });
                         if rng.bool() {
                             // the peer really left: stop answering
                             s.op(t_ev, Op::PeerActive { p, on: false });
@@ -362,6 +372,30 @@ impl Property for C03 {
                             if fk > sl_step && fk < e.step && all_certain && m.live_at_s(k, t, e.step, None, Mode::Definitely, sl + 1001) {
                                 j.fail("C03-R1", format!("ServiceResolved({}) at t={} shows host={} port={} from an SRV last received in step {} although a different SRV ({:?}) was received later (step {}) and is still live: the event does not describe the instance as last advertised", r.fullname, t, r.host, r.port, sl_step, m.recs[k].rec.rdata, fk));
                             }
+                        }
+                    }
+                }
+            }
+            // R6: nothing that was withdrawn by a goodbye: the last copy of the record the daemon read (in an earlier step, or
+            // in this one) must not be a goodbye
+            {
+                let withdrawn = |i: usize, ifx: Option<u32>| -> Option<u64> {
+                    let last = m.recs[i].arrivals.iter().filter(|x| x.step <= e.step && ifx.map(|f| f == x.if_index).unwrap_or(true)).max_by_key(|x| (x.step, x.rx));
+                    match last {
+                        Some(x) if x.ttl == 0 && x.certain && !x.corrupted => Some(x.t),
+                        _ => None,
+                    }
+                };
+                let srvs: Vec<usize> = m.find(&fullname, wire::T_SRV).into_iter().filter(|&i| matches!(srv_target(&m.recs[i].rec), Some((h, p)) if h.eq_ci(&host) && p == r.port)).collect();
+                if !srvs.is_empty() && srvs.iter().all(|&i| withdrawn(i, None).is_some()) {
+                    j.fail("C03-R6", format!("ServiceResolved({}) at t={} shows host={} port={} although the SRV record that says so was withdrawn by a goodbye read at t={}", r.fullname, t, r.host, r.port, withdrawn(srvs[0], None).unwrap()));
+                }
+                for a in &r.addrs {
+                    let ty = if a.ip.is_ipv4() { wire::T_A } else { wire::T_AAAA };
+                    for (_, ifx) in &a.intfs {
+                        let cands: Vec<usize> = m.find(&host, ty).into_iter().filter(|&i| rec_ip(&m.recs[i].rec) == Some(a.ip) && m.recs[i].arrivals.iter().any(|x| x.if_index == *ifx && x.step <= e.step)).collect();
+                        if !cands.is_empty() && cands.iter().all(|&i| withdrawn(i, Some(*ifx)).is_some()) {
+                            j.fail("C03-R6", format!("ServiceResolved({}) at t={} lists {} (if{}) although that address record was withdrawn by a goodbye read at t={}", r.fullname, t, a.ip, ifx, withdrawn(cands[0], Some(*ifx)).unwrap()));
                         }
                     }
                 }
@@ -649,6 +683,15 @@ impl Property for C04 {
                     // at most three tries per unresolved episode
                     j.judgements += 1;
                     let per_chan = qs.iter().filter(|q| q.if_index == chans.first().map(|c| c.0) && q.v4 == chans.first().map(|c| c.1).unwrap_or(true) && q.t > t0 && q.t <= t0 + 1500 + 4 * sl).count();
+                    // ... and no fourth one later, as long as nothing about the instance arrived that would start a new episode
+                    let quiet_until = t0 + 2600 + 4 * sl;
+                    let ptr_again = m.recs[pi].arrivals.iter().any(|x| x.t > t0 && x.t <= quiet_until);
+                    if !any_related_between(t0, quiet_until) && !ptr_again && quiet_until < w.close_t && quiet_until < tr.stats.sim_ms {
+                        let n = qs.iter().filter(|q| q.if_index == chans.first().map(|c| c.0) && q.v4 == chans.first().map(|c| c.1).unwrap_or(true) && q.t > t0 && q.t <= quiet_until).count();
+                        if n > 3 {
+                            j.fail("C04-R3", format!("{} follow-up queries for {} after the PTR at t={} although nothing more about the instance arrived (up to three times; seen at {:?})", n, inst.dotted(), t0, qs.iter().filter(|q| q.t > t0 && q.t <= quiet_until).map(|q| q.t).collect::<Vec<_>>()));
+                        }
+                    }
                     if per_chan > 3 {
                         j.fail("C04-R3", format!("{} follow-up queries for {} within 1.5 s of the PTR at t={} (at most 3 allowed)", per_chan, inst.dotted(), t0));
                     }
